@@ -94,7 +94,6 @@ Proof.
     rewrite F. repeat split; try lia.
     + rewrite app_assoc, <- D2. exact D1.
     + exact D2.
-    + unfold m in *. lia.
     + destruct Hp as [[-> _]|Hp]; [now left|right; lia].
     + rewrite app_length, skipn_length. unfold m in *. lia.
   - inversion H; subst ex col; clear H.
@@ -125,6 +124,104 @@ Proof.
       rewrite <- A1, S1. exact D.
   - destruct (post_tail_any [] _ _ _ _ H Hk) as (w & r & post & A1 & A2 & A3 & A4 & A5 & A6 & A7 & A8).
     + left. split; [reflexivity|lia].
-    + exists [], w, r, post. cbn [app length]. repeat split; try assumption; try lia. now left.
+    + exists [], w, r, post. cbn [app length]. repeat split; try assumption; try lia.
+Qed.
+
+(* ---- well-formed UTF-8 -------------------------------------------------------------------------- *)
+Lemma utf8_head : forall s, utf8 s -> s <> [] ->
+  exists e rest, s = e ++ rest /\ wf_enc e = true /\ utf8 rest.
+Proof. intros s H Hn. destruct H; [congruence|]. now exists e, s. Qed.
+
+Lemma post_tail_utf8 : forall (pre : list N) l1 o1 ex col,
+  utf8 l1 -> post_tail l1 o1 = (ex, col) -> (o1 <= length l1)%nat ->
+  ((pre = [] /\ o1 <= 48) \/ (48 <= o1 <= 51))%nat ->
+  exists w r post,
+    l1 = w ++ r ++ post /\ ex = w ++ r /\ col = swidth w /\ utf8 w /\ utf8 r /\ utf8 post /\
+    ((o1 < length l1)%nat -> exists e rest, r = e ++ rest /\ wf_enc e = true /\
+                                           (length w <= o1 < length w + length e)%nat) /\
+    (o1 = length l1 -> r = [] /\ post = [] /\ length w = o1) /\
+    (length ex <= 64)%nat /\ (length w <= 51)%nat /\
+    (pre = [] \/ 45 <= length w)%nat /\ (post = [] \/ 61 <= length ex)%nat.
+Proof.
+  intros pre l1 o1 ex col U H Ho Hp. unfold post_tail in H. cbv zeta in H.
+  set (m := Nat.min 64 (length l1)) in *.
+  destruct (trim_prefix_utf8 l1 m U ltac:(unfold m; lia)) as (ex0 & rem2 & D1 & T1 & U1 & U2 & L1 & C1).
+  rewrite T1 in H.
+  assert (Ll : length l1 = (length ex0 + length rem2)%nat) by (rewrite D1 at 1; apply app_length).
+  assert (R2 : m = length l1 -> rem2 = []).
+  { intros Hm. destruct C1 as [C1|(e & rest & -> & He & Hr & Lt)].
+    - destruct rem2; [reflexivity|cbn [length] in Ll; lia].
+    - rewrite app_length in Ll. lia. }
+  destruct (Nat.ltb_spec o1 (length ex0)) as [C|C].
+  - destruct (trim_prefix_utf8 ex0 o1 U1 ltac:(lia)) as (w3 & rem3 & D2 & T2 & U3 & U4 & L2 & C2).
+    rewrite T2 in H.
+    assert (F : firstn (length w3) ex0 = w3) by (rewrite D2 at 1; apply firstn_app_len).
+    rewrite F in H. inversion H; subst ex col; clear H.
+    assert (Le : length ex0 = (length w3 + length rem3)%nat) by (rewrite D2 at 1; apply app_length).
+    exists w3, rem3, rem2.
+    split; [rewrite app_assoc, <- D2; exact D1|]. split; [exact D2|]. split; [reflexivity|].
+    split; [assumption|]. split; [assumption|]. split; [assumption|].
+    split.
+    { intros _. destruct C2 as [C2|(e & rest & -> & He & Hr & Lt)].
+      - destruct (utf8_head rem3 U4) as (e & rest & -> & He & Hr).
+        + destruct rem3; [cbn [length] in Le; lia|congruence].
+        + exists e, rest. split; [reflexivity|]. split; [assumption|].
+          pose proof (wf_enc_len _ He). lia.
+      - exists e, rest. split; [reflexivity|]. split; [assumption|]. lia. }
+    split; [intros; lia|]. split; [unfold m in *; lia|]. split; [lia|].
+    split; [destruct Hp as [[-> _]|Hp]; [now left|right; lia]|].
+    destruct (Nat.eq_dec m (length l1)) as [Em|Em]; [left; now apply R2|right; unfold m in *; lia].
+  - rewrite firstn_all in H. inversion H; subst ex col; clear H.
+    assert (Em : m = length l1) by (unfold m in *; lia).
+    pose proof (R2 Em) as ->. cbn [length] in Ll. rewrite app_nil_r in D1.
+    exists ex0, [], []. rewrite !app_nil_r.
+    split; [exact D1|]. split; [reflexivity|]. split; [reflexivity|].
+    split; [assumption|]. split; [constructor|]. split; [constructor|].
+    split; [intros; lia|]. split; [intros; repeat split; lia|].
+    split; [unfold m in *; lia|]. split; [lia|].
+    split; [destruct Hp as [[-> _]|Hp]; [now left|right; lia]|]. now left.
+Qed.
+
+Theorem post_utf8 : forall lc k ex col, utf8 lc -> (k <= length lc)%nat ->
+  post_n lc k = (ex, col) -> excerpt_ok_utf8 swidth lc k ex col.
+Proof.
+  intros lc k ex col U Hk H. unfold excerpt_ok_utf8. rewrite Nat.min_l by lia.
+  unfold post_n in H. destruct (Nat.ltb_spec 48 k) as [C|C].
+  - destruct (trim_prefix_utf8 lc (k - 48) U ltac:(lia)) as (w1 & rem1 & D & T & U1 & U2 & L & _).
+    rewrite T in H.
+    assert (S1 : skipn (length w1) lc = rem1) by (rewrite D; apply skipn_app_len).
+    rewrite S1 in H.
+    assert (Ll : length lc = (length w1 + length rem1)%nat) by (rewrite D at 1; apply app_length).
+    destruct (post_tail_utf8 w1 _ _ _ _ U2 H) as
+      (w & r & post & A1 & A2 & A3 & B1 & B2 & B3 & A4 & A5 & A6 & A7 & A8 & A9).
+    + lia.
+    + right. lia.
+    + exists w1, w, r, post.
+      split; [rewrite <- A1; exact D|]. split; [exact A2|]. split; [exact A3|].
+      split; [assumption|]. split; [assumption|]. split; [assumption|]. split; [assumption|].
+      split.
+      { intros Hlt. destruct A4 as (e & rest & -> & He & Lt); [lia|].
+        exists e, rest. split; [reflexivity|]. split; [assumption|]. lia. }
+      split.
+      { intros Heq. destruct A5 as (-> & -> & Lw); [lia|]. repeat split; lia. }
+      split; [assumption|]. split; [assumption|]. split; assumption.
+  - destruct (post_tail_utf8 [] _ _ _ _ U H Hk) as
+      (w & r & post & A1 & A2 & A3 & B1 & B2 & B3 & A4 & A5 & A6 & A7 & A8 & A9).
+    + left. split; [reflexivity|lia].
+    + exists [], w, r, post. cbn [app length].
+      split; [exact A1|]. split; [exact A2|]. split; [exact A3|].
+      split; [constructor|]. split; [assumption|]. split; [assumption|]. split; [assumption|].
+      split; [exact A4|]. split; [exact A5|].
+      split; [assumption|]. split; [assumption|]. split; assumption.
+Qed.
+
+Theorem post_spec : forall lc offset ex col,
+  glbo_post swidth lc offset = (ex, col) ->
+  excerpt_spec swidth lc (Z.to_nat (Z.min (Z.max (offset - 1) 0) (zlen lc))) ex col.
+Proof.
+  intros lc offset ex col H. rewrite glbo_post_nat in H.
+  set (k := Z.to_nat (Z.min (Z.max (offset - 1) 0) (zlen lc))) in *.
+  assert (Hk : (k <= length lc)%nat) by (unfold k, zlen; lia).
+  split; [now apply post_any|]. intros U. now apply post_utf8.
 Qed.
 End Post.
